@@ -12,7 +12,7 @@ from tv.props import c14 as U
 ID = 'C15'
 LEVEL = 'fault_enumeration'
 QUICK_S = 60
-THOROUGH_S = 900
+THOROUGH_S = 300
 TECHNIQUE = ('runtime monitoring with fault injection: every failure phase x k-th call enumerated per model; weak references '
              'to every object allocated by the load (hook on the metamodel object initialiser) must be dead after the exception '
              'is dropped and gc ran; class snapshots; next-load differential against a fresh metamodel')
@@ -299,7 +299,7 @@ def classify(chain, phase, global_repo):
 
 
 def run(ctx):
-    for i in ctx.indices(1200 if ctx.tier == "quick" else 6000, "random"):
+    for i in ctx.indices(1200 if ctx.tier == "quick" else 10 ** 7, "random"):
         one(ctx, i)
 
 
